@@ -681,7 +681,11 @@ def run(ctx):
             # ---- the implementation ----
             mpmath.mp.dps = dps
             try:
-                got = ebb_calc.calculate_lm(steps, rate, accel, acc)
+                acc_arg = acc
+                if type(acc) is int and 0 <= acc < 2 ** 53 and i % 13 == 5:   # same integer held in a float: int() in the code
+                    acc_arg = float(acc)
+                    I['acc_passed_as'] = 'float'
+                got = ebb_calc.calculate_lm(steps, rate, accel, acc_arg)
                 got = tuple(int(x) for x in got)
                 exc = None
             except Exception as ex:
